@@ -53,7 +53,7 @@ def run(ctx):
                        json.dumps(prev['recs'] if prev else None), json.dumps(ln.get('recs')), ln.get('fwd')) +
                       (' -- relay index table still holds %s (index, tunnel; 0 = a tunnel the node no longer has)' % stale if stale else ''), fl)
     ctx.require_actions('ev:Recv', 'typ:control', 'typ:relay', 'hostile-control', 'churn:relay-closes-one-of-two', 'churn:relay-indexes-before-close',
-                        'reload:am_relay-false', 'relayed-datagram-while-am_relay-off')
+                        'reload:am_relay-false', 'relayed-datagram-while-am_relay-off', 'hostile-response-for-foreign-requested-leg')
 
 
 META = {
